@@ -59,7 +59,8 @@ let handle op args =
       let a = { fa_syntax = syn; fa_label = pres_lbl_of lbl; fa_oneof = bool_of_tok oneof; fa_p3opt = bool_of_tok p3;
                 fa_msg = bool_of_tok msg; fa_ext = bool_of_tok ext; fa_fp = fp } in
       let (u, l) = use_presence a (bool_of_tok ismap) (bool_of_tok islazy) in
-      [tok_of_bool (has_presence a); tok_of_bool u; tok_of_bool l]
+      [tok_of_bool (has_presence a); tok_of_bool u; tok_of_bool l;
+       hex_of_n (PresenceCodec.pc_card a (bool_of_tok ismap) false)]
   | "bitmap", _ :: nwords :: ops ->
       let s = ref (pres_zeros (int_of_n (n_of_hex nwords))) in
       let out = ref [] in
@@ -96,6 +97,18 @@ let handle op args =
         | FCExplicit, _ -> StOpt (Some (pres_val_of tok))
         | _, _ -> StVal (pres_val_of tok) in
       [hex_of_bytes (enc_field cls (n_of_hex num) st)]
+  | "chas", id :: nums :: toks ->
+      (* Has on the canonical value and the emitted wire fields, over the message codec model of C03 *)
+      let s = Fam_msg.schema_of_id id and tid = Datatypes.O in
+      let (v, _) = Fam_msg.parse_value toks in
+      if not (MsgValid.msg_valid false s (Fam_msg.nat_cached 10000) tid v) then ["not-canonical"]
+      else if not (PresenceCodec.pc_groups_scan s tid v) then ["groups-do-not-scan"]
+      else begin
+        let nums = if nums = "" then [] else Stdlib.List.map n_of_hex (String.split_on_char ',' nums) in
+        let bits = String.concat "" (Stdlib.List.map (fun n -> tok_of_bool (PresenceCodec.pc_has s tid v n)) nums) in
+        let wire = Stdlib.List.map (fun w -> hex_of_n (fst w)) (PresenceCodec.pc_wire s tid v) in
+        [bits; (if wire = [] then "-" else String.concat "," wire)]
+      end
   | "dec", [num; b] ->
       (match dec_explicit (n_of_hex num) (bytes_of_hex b) with
        | WireModel.Ok None -> ["ok"; "0"; "0"]
